@@ -183,12 +183,26 @@ BandedTraceValid(tr, n, m, band, local) ==
 BandedTraceHonest(tr, score, s1, s2, M, gap, local) == HonestScore(tr, s1, s2, M, gap, local) = score
 UnrestrictedOpt(s1, s2, M, gap, local) == DPOptimalScore(s1, s2, M, gap, IF local THEN "local" ELSE "semi")
 
-(* Known defect (finding C09-banded-boundary-gap): when a gap scores better than pairing the
-   first symbols reachable in the band, the semi-global recurrence enters the table through a
+(* Known defect (finding C09-banded-boundary-gap): when a gap run scores at least as well as
+   pairing the same number of symbols, the semi-global recurrence enters the table through a
    gap step from the zero top row / the missing left column; the trace stops there, the
    visited cell is reported as a *pair*, and the reported score is not the score of the
-   returned alignment. Necessary for this: some pair scores below the gap (opening) penalty. *)
-KB_C09_BoundaryGap(M, gap) == \E a \in DOMAIN M : \E b \in DOMAIN M[1] : M[a][b] < GapOpen(gap)
+   returned alignment (affine: it is the score of an alignment with abutting gaps and may exceed
+   the optimum). Necessary for this: a run of k gaps is not worse than k times the smallest
+   matrix entry for some k up to the sequence length L - otherwise pairing the last symbols of
+   the run on the same diagonal (the rest becomes a free terminal gap) is strictly better. *)
+MatMin(M) == Min({M[a][b] : a \in DOMAIN M, b \in DOMAIN M[1]})
+KB_C09_BoundaryGap(M, gap, L) ==
+  \E k \in 1..L : GapOpen(gap) + (k - 1) * GapExt(gap) >= k * MatMin(M)
+
+(* Known defect (finding C09-banded-affine-sentinel-underflow): banded.pyx corrects its
+   "negative infinity" only by the smaller of the two affine penalties (and the smallest matrix
+   entry). A cell next to the band border gets neg_inf + max(open, ext) in a gap table, its
+   neighbour adds the extension penalty once more, the int32 wraps around and the huge positive
+   value wins: the reported score is about 2^31. (Local mode never stores such a value.) *)
+KB_C09_SentinelUnderflow(M, gap, local) ==
+  /\ ~local /\ IsAffine(gap)
+  /\ AMax2(gap[1], gap[2]) + gap[2] - AMin2(gap[1], gap[2]) - AMin2(0, MatMin(M)) < 0
 
 (* ================================================================== align_local_ungapped *)
 Dom_Seed(seed, n, m) == seed[1] \in 0..(n - 1) /\ seed[2] \in 0..(m - 1)
